@@ -40,6 +40,22 @@ func tierLimits() limits {
 	return limits{maxLeaves: 96, maxBlocks: 14, maxAdd: 12}
 }
 
+// genLimits is tierLimits with an occasional much larger case mixed in (1 in 40 quick cases, 1 in 8
+// thorough ones): forests of several hundred leaves, blocks adding more than 255 leaves, histories
+// of 25+ blocks - the scale at which counters wrap and leaves climb many rows.
+func genLimits(t *rapid.T) limits {
+	if thorough() {
+		if rapid.IntRange(0, 7).Draw(t, "huge") == 0 {
+			return limits{maxLeaves: 2600, maxBlocks: 48, maxAdd: 700}
+		}
+		return tierLimits()
+	}
+	if rapid.IntRange(0, 39).Draw(t, "big") == 0 {
+		return limits{maxLeaves: 640, maxBlocks: 26, maxAdd: 300}
+	}
+	return tierLimits()
+}
+
 var rowsChoices = []int{0, 1, 2, 3, 4, 5, 6, 8, 16, 31, 32, 33, 62, 63}
 
 func genRows(t *rapid.T, label string) int {
